@@ -582,8 +582,21 @@ def _run_cmd(mon, case, names, d, documented=()):
     dt = _tdt(case["dtype"])
     feat = os.path.join(d, "feat")
     os.makedirs(feat)
-    for name, t in zip(names, case["tensors"]):
-        torch.save(torch.tensor(t, dtype=dt), os.path.join(feat, case["prefix"] + name + case["suffix"]))
+    linked = 0
+    for j, (name, t) in enumerate(zip(names, case["tensors"])):
+        path = os.path.join(feat, case["prefix"] + name + case["suffix"])
+        if (len(names) + case["dim"]) % 2 == 0 and j % 3 == 1:
+            # part of the corpus lives elsewhere and is linked in (what `subset-torch-spect-data-dir --symlink` makes)
+            store = os.path.join(d, "store")
+            os.makedirs(store, exist_ok=True)
+            real = os.path.join(store, "%d.bin" % j)
+            torch.save(torch.tensor(t, dtype=dt), real)
+            os.symlink(os.path.relpath(real, feat) if j % 2 else real, path)
+            linked += 1
+        else:
+            torch.save(torch.tensor(t, dtype=dt), path)
+    if linked:
+        mon.cls("cmd_symlinked_files")
     out = os.path.join(d, "out.pt")
     args = [feat, out, "--num-workers", "0"]
     if case["prefix"]:
